@@ -824,6 +824,7 @@ impl Model {
                     }
                 }
             }
+            Op::SetReporter => {}
             Op::Unwind { steps } => {
                 // flat layout: [begin marker] [steps] [end: everything left open is closed]
                 let floor = self.threads[t].frames.len();
